@@ -413,12 +413,16 @@ def expWord (K : Kern) (ents : List Ent) (deps : List (Option Nat)) (q : Nat) : 
   | none => 0
   | some e => cqeWord (K.ud e.val) (outcome K ents deps q).1
 
+/-- the content of a submission entry as the simulated kernel of harness/c18 reads it: `user_data: u64`,
+`flags: u8`, `len: u32` (every other field zero) -/
+def sqeWord (ud flags len : Nat) : Nat := ud % U64 + U64 * (flags % 256 + 256 * (len % W))
+
 /-- a concrete kernel for the driver / the simulated kernel of harness/c18: entry content =
 `user_data + 2^64 * (flags + 256 * len)`; the "system call" is IORING_OP_NOP with an injected result
 (`res = len`), a negative result fails the request -/
 def nopKern : Kern where
   ud v := v % U64
-  link v := v / U64 / 4 % 2 == 1
+  link v := v / U64 % 256 / 4 % 2 == 1
   sys _ v := v / U64 / 256 % W
   severs _ res := decide (2147483648 ≤ res % W)
 
